@@ -220,6 +220,7 @@ def explore(ctx, cfg, bound, solos, label, cap=None, window="all"):
     depth = 0
     transitions = 0
     capped = False
+    slow_runs = 0
     leftovers = collections.Counter()
     while frontier:
         if cap is not None and executed + len(frontier) > cap:
@@ -248,6 +249,8 @@ def explore(ctx, cfg, bound, solos, label, cap=None, window="all"):
             vectors[vec] += 1
             if res.get("left_behind"):
                 leftovers.update(res["left_behind"])
+            if res.get("slow"):
+                slow_runs += 1
             ctx.part.outcome('|'.join(','.join(outcome.short(o) if isinstance(o, tuple) and o and o[0] in 'VEXP' else str(o) for o in (r or ())) for r in vec)[:150])
             bad = first_bad(mix, vec, solos, tids)
             if bad is not None:
@@ -288,7 +291,7 @@ def explore(ctx, cfg, bound, solos, label, cap=None, window="all"):
             nxt.extend(sched.children(res, len(prefix), bound, window=(None if window == "all" else (lambda i, pt: pt[4] == window))))
         frontier = nxt
         depth += 1
-    return dict(executed=executed, vectors=len(vectors), maxpoints=maxpoints, violations=viol, transitions=transitions, capped=capped, state_left_behind=dict(leftovers.most_common(12)))
+    return dict(executed=executed, vectors=len(vectors), maxpoints=maxpoints, violations=viol, transitions=transitions, capped=capped, slow_executions=slow_runs, state_left_behind=dict(leftovers.most_common(12)))
 
 
 def run(ctx):
@@ -338,18 +341,28 @@ def run(ctx):
                 raise runner.HarnessError(f"solo run of thread {t}/{k} does not produce values: {ref}")
     # forced-collision check: program i on thread j's bindings, and program j on thread i's bindings,
     # must both differ from thread i's own result (brute force over the cross combinations)
-    for i in range(len(THREADS)):
-        for j in range(len(THREADS)):
-            if i == j:
-                continue
-            e, e2, bi, bj = expr_of(i, "I"), expr_of(j, "I"), THREADS[i][1], THREADS[j][1]
-            for n in range(nevals):
-                a = subprocess_free_eval(e, bi[n], i)
-                b = subprocess_free_eval(e, bj[n], i)
-                c = subprocess_free_eval(e2, bi[n], j)
-                d = subprocess_free_eval(e, bi[n], j) if THREADS[i][2] and THREADS[j][2] else None     # thread i's program calling thread j's host function
-                if a == b or (e2 != e and a == c) or a == d:
-                    raise runner.HarnessError(f"threads {i} and {j} do not collide observably for {e[:80]!r}: {a} {b} {c} {d}")
+    def collisions():
+        import celpy
+        out = {}
+
+        def ev(expr, b, fn_of):
+            env = celpy.Environment()
+            return outcome.run(lambda: env.program(env.compile(expr), functions=functions_of(fn_of)).evaluate(to_cel(b)))
+        for i in range(len(THREADS)):
+            for j in range(len(THREADS)):
+                if i == j:
+                    continue
+                e, e2, bi, bj = expr_of(i, "I"), expr_of(j, "I"), THREADS[i][1], THREADS[j][1]
+                for n in range(nevals):
+                    out[(i, j, n)] = (ev(e, bi[n], i), ev(e, bj[n], i), ev(e2, bi[n], j), ev(e, bi[n], j) if THREADS[i][2] and THREADS[j][2] else None)
+        return out
+    status, table = sched.run_in_fork(collisions)          # one fork: the parent stays free of Environments
+    if status != "ok":
+        raise runner.HarnessError(f"collision check crashed: {table}")
+    for (i, j, n), (a, b, c, d) in table.items():
+        e, e2 = expr_of(i, "I"), expr_of(j, "I")
+        if a == b or (e2 != e and a == c) or a == d:
+            raise runner.HarnessError(f"threads {i} and {j} do not collide observably for {e[:80]!r}: {a} {b} {c} {d}")
     total_exec = total_trans = 0
     distinct = set()
     per_cfg = {}
